@@ -292,8 +292,8 @@ static void run_badarg(const fc_desc* d, unsigned di, uint64_t seed, const sk_ma
 				snprintf(cls, sizeof(cls), "leak_on_error:%s", d->name);
 				sk_violate(out, cls, "%s: invalid variant %d, rc=%u, %ld block(s) left behind", d->name, j1, (unsigned)rc, sk_heap_live());
 			}
-			else if ((d->flags & FC_AUTH) && C.plain && C.dest &&
-				has_window(C.dest, C.dest_len, C.plain, C.plain_len, 8))
+			else if ((d->flags & FC_AUTH) && C.plain && C.dest && C.plain_len >= 4 &&
+				has_window(C.dest, C.dest_len, C.plain, C.plain_len, C.plain_len >= 8 ? 8 : C.plain_len))
 			{
 				sk_count("probe.auth_failure_checked", 1);
 				snprintf(cls, sizeof(cls), "released_on_auth_failure:%s", d->name);
@@ -533,6 +533,25 @@ static void run_wipe(const fc_desc* d, unsigned di, uint64_t seed, const sk_mask
 }
 
 /* ---------------------------------------------------------------- C07 base */
+/* The C stack is part of the environment too: before each of the two runs the
+   region the callee's frames will occupy is filled with different seeded
+   garbage, so an uninitialised automatic variable that influences a result
+   shows up in the garbage differential like uninitialised heap memory does. */
+__attribute__((noinline)) static void scribble_stack(uint64_t seed)
+{
+	volatile unsigned char pad[96 * 1024];
+	sk_rng r;
+	size_t i;
+	sk_rng_seed(&r, seed);
+	for (i = 0; i < sizeof(pad); i += 8)
+	{
+		uint64_t v = sk_u64(&r);
+		size_t k;
+		for (k = 0; k < 8; ++k)
+			pad[i + k] = (unsigned char)(v >> (8 * k));
+	}
+}
+
 static void run_base(const fc_desc* d, unsigned di, uint64_t seed, const sk_mask* mask, sk_result* out)
 {
 	uint64_t ps = sk_mix(seed, 2), ss = sk_mix(seed, 3);
@@ -549,6 +568,7 @@ static void run_base(const fc_desc* d, unsigned di, uint64_t seed, const sk_mask
 		d->gen(&C);
 		if (v == 0)
 			sk_text(out, "function %s, argument variant %d", d->name, C.variant);
+		scribble_stack(sk_mix(seed, 200 + (uint64_t)v));
 		rc[v] = do_call(d);
 		if (!common_post(d, out, "baseline"))
 			return;
